@@ -2,7 +2,7 @@
    Statements only; proofs are [exact] of lemmas in Resolver/FixFacts.v. *)
 From Coq Require Import List Bool NArith ZArith.
 From PV Require Import Base.Str Base.Value Resolver.Consts Resolver.Text Resolver.Resolve Resolver.Spec Resolver.SubFacts
-  Resolver.Template Resolver.FixFacts.
+  Resolver.Template Resolver.FixFacts Resolver.ModelFix.
 Import ListNotations.
 Local Open Scope N_scope.
 
@@ -51,3 +51,84 @@ Definition e3 : env := {| params := [([80], VStr [84;114;117;101])]; mappings :=
 Example C03_ex : exists r, resolve e3 (VDict [([78], VDict [(K_Ref, VStr [80])]); ([76], VList [VBool true; VInt 7; VDict [(K_Ref, VStr [90])]])]) = Ok r
   /\ no_fn_dict r = true /\ rendered (params e3) r = true /\ resolve e3 r = Ok r.
 Proof. eexists. split; [vm_compute; reflexivity|]. repeat split; vm_compute; reflexivity. Qed.
+
+(* ---- the MODEL level: CFModel.resolve applied to its own result (Resolver/ModelFix.v) ---- *)
+
+(* a Conditions section that already holds booleans evaluates to itself -- true AND false -- for all parameters and mappings *)
+Theorem C03_conditions_fixed_point : forall ps maps l cdecl,
+  cdecl = map (fun nb => (fst nb, VBool (snd nb))) l -> NoDup (keys l) ->
+  cond_all ps maps cdecl (keys cdecl) = Ok l.
+Proof. exact cond_all_of_bools. Qed.
+Print Assumptions C03_conditions_fixed_point.
+
+(* any name looked up in it has its boolean; an undeclared name counts as false, as before *)
+Theorem C03_condition_root_of_bools : forall ps maps l n,
+  cond_root ps maps (map (fun nb => (fst nb, VBool (snd nb))) l) n = Ok (match lookup n l with Some b => b | None => false end).
+Proof. exact cond_root_of_bools. Qed.
+Print Assumptions C03_condition_root_of_bools.
+
+(* whatever one resolution wrote as Conditions, the next one (with ANY parameters and mappings) reads back unchanged; no
+   hypothesis on the declarations -- a name may even be declared twice *)
+Theorem C03_conditions_resolved_twice : forall ps maps decl names l ps' maps',
+  cond_all ps maps decl names = Ok l ->
+  cond_all ps' maps' (map (fun nb => (fst nb, VBool (snd nb))) l) (keys (map (fun nb => (fst nb, VBool (snd nb))) l)) = Ok l.
+Proof. exact cond_all_twice. Qed.
+Print Assumptions C03_conditions_resolved_twice.
+
+(* THE MODEL-LEVEL FIXED POINT: m.resolve(p).resolve(p) == m.resolve(p).
+   On the result of the first resolution: every resource is function-free and rendered (the hypotheses of C03_fixed_point).
+   On the template: every resource that was kept is [resource_wf] -- an object that is not a function object, with distinct keys,
+   whose Condition NAME is not rewritten by rendering (C03_model_fixed_point_needs_wf below shows why).
+   Nothing is assumed about the conditions, the resource ids, or the resources that were dropped. *)
+Theorem C03_model_fixed_point : forall pseudo decls extra maps cdecl rs ps cs rs',
+  bind_params pseudo decls extra = Ok ps ->
+  resolve_model pseudo decls extra maps cdecl rs = Ok (VDict [(K_Conditions, VDict cs); (K_Resources, VDict rs')]) ->
+  (forall id r', In (id, r') rs' -> no_fn_dict r' = true /\ rendered ps r' = true) ->
+  (forall id r, In (id, r) rs -> gate_open (cond_bools cs) r = true -> resource_wf ps r = true) ->
+  resolve_model pseudo decls extra maps cs rs' = Ok (VDict [(K_Conditions, VDict cs); (K_Resources, VDict rs')]).
+Proof. exact resolve_model_twice. Qed.
+Print Assumptions C03_model_fixed_point.
+
+(* the exact condition, stated on the first result alone: it comes back unchanged iff the gate of each of its resources is
+   open under its own (boolean) Conditions *)
+Theorem C03_model_fixed_point_iff : forall pseudo decls extra maps cdecl rs ps cs rs',
+  bind_params pseudo decls extra = Ok ps ->
+  resolve_model pseudo decls extra maps cdecl rs = Ok (VDict [(K_Conditions, VDict cs); (K_Resources, VDict rs')]) ->
+  (forall id r', In (id, r') rs' -> no_fn_dict r' = true /\ rendered ps r' = true) ->
+  (resolve_model pseudo decls extra maps cs rs' = Ok (VDict [(K_Conditions, VDict cs); (K_Resources, VDict rs')])
+   <-> forallb (fun kv => gate_open (cond_bools cs) (snd kv)) rs' = true).
+Proof. exact resolve_model_twice_iff. Qed.
+Print Assumptions C03_model_fixed_point_iff.
+
+(* non-vacuity, on a template with a parameter E (default "prod"), conditions IsP = Equals(Ref E, "prod") (true) and
+   NotP = Not(Condition IsP) (false), a resource gated by IsP (kept), one gated by NotP (dropped), one ungated, a Ref and two
+   Fn::If: the boolean forms of all hypotheses hold, and resolving the result again gives the result *)
+Theorem C03_model_fixed_point_ex :
+  exists ps,
+    bind_params [] ex_decls [] = Ok ps /\
+    resolve_model [] ex_decls [] [] ex_cdecl ex_rs = Ok (model_out ex_cs ex_rs') /\
+    forallb (fun kv => no_fn_dict (snd kv) && rendered ps (snd kv)) ex_rs' = true /\
+    forallb (fun kv => negb (gate_open (cond_bools ex_cs) (snd kv)) || resource_wf ps (snd kv)) ex_rs = true /\
+    resolve_model [] ex_decls [] [] ex_cs ex_rs' = Ok (model_out ex_cs ex_rs').
+Proof. exact model_fixed_point_ex. Qed.
+Print Assumptions C03_model_fixed_point_ex.
+
+(* [resource_wf] is needed, in the model and in the code: conditions named True (holds) and true (does not), a resource with
+   Condition: True.  The first resolution renders the attribute as "true"; the second one drops the resource. *)
+Theorem C03_model_fixed_point_needs_wf :
+  exists cs rs' out2,
+    resolve_model [] [] [] [] tt_cdecl tt_rs = Ok (model_out cs rs') /\
+    forallb (fun kv => no_fn_dict (snd kv) && rendered [] (snd kv)) rs' = true /\
+    resolve_model [] [] [] [] cs rs' = Ok out2 /\ out2 <> model_out cs rs' /\ out2 = model_out cs [].
+Proof. exact twice_needs_stable_condition_names. Qed.
+Print Assumptions C03_model_fixed_point_needs_wf.
+
+(* the fixed point is about the SAME assignment: resolved with E = prod and then with E = dev the model does not move, although
+   the template resolves differently under E = dev -- a resolved model no longer follows its parameters *)
+Theorem C03_resolved_model_is_frozen :
+  exists out1 cs1 rs1 out2,
+    resolve_model [] ex_decls [] [] ex_cdecl ex_rs = Ok out1 /\ out1 = model_out cs1 rs1 /\
+    resolve_model [] ex_decls ex_extra_dev [] cs1 rs1 = Ok out1 /\
+    resolve_model [] ex_decls ex_extra_dev [] ex_cdecl ex_rs = Ok out2 /\ out2 <> out1.
+Proof. exact resolved_model_is_frozen. Qed.
+Print Assumptions C03_resolved_model_is_frozen.
